@@ -45,37 +45,59 @@ DAMAGED = {W_AND: [303, 305, 307, W_PIPE], W_OR: [W_PIPE, 306, 308, 303], W_PIPE
 HOSTS = [
     dict(name='integer-matcher', mod='exactly_lib.impls.types.integer_matcher.parse_integer_matcher', vt='INTEGER_MATCHER',
          matcher=True, leaves=['== 1', '!= 2', '< 3', '>= 2', 'constant true', 'constant false', '<= 2', '> 3'],
-         syms=['== 71', '<= 72']),
+         syms=['== 71', '<= 72', '== 73', '<= 74', '>= 75']),
     dict(name='line-matcher', mod='exactly_lib.impls.types.line_matcher.parse_line_matcher', vt='LINE_MATCHER',
          # (no leaf takes a TEXT-SOURCE: `equals X` would accept a following `-transformed-by ...` token as its own option,
          #  so a leaf would not be one word when another leaf is put next to it in the malformed stream)
          matcher=True, leaves=['line-num == 1', 'line-num > 1', 'contents is-empty', "contents matches ^a$", 'constant true',
                                'constant false', 'line-num <= 2', 'line-num >= 3'],
-         syms=['line-num == 71', 'line-num <= 72']),
+         syms=['line-num == 71', 'line-num <= 72', 'line-num == 73', 'line-num <= 74', 'line-num >= 75']),
     dict(name='text-matcher', mod='exactly_lib.impls.types.string_matcher.parse_string_matcher', vt='STRING_MATCHER',
          matcher=True, leaves=['is-empty', 'num-lines == 1', 'num-lines > 1', 'matches ^a', 'matches b', 'constant true',
                                'constant false',
                                # primitives whose LAST argument is a simple expression (of this or another type)
                                "-transformed-by char-case -to-upper matches A", "every line : contents matches ^a$",
                                'any line : line-num > 1'],
-         syms=['num-lines == 71', 'num-lines <= 72']),
+         syms=['num-lines == 71', 'num-lines <= 72', 'num-lines == 73', 'num-lines <= 74', 'num-lines >= 75']),
     dict(name='file-matcher', mod='exactly_lib.impls.types.file_matcher.parse_file_matcher', vt='FILE_MATCHER',
          matcher=True, leaves=['type file', 'type dir', 'name f.txt', "name '*.txt'", 'constant true', 'constant false',
                                "contents matches ^a$", 'dir-contents num-files == 1', 'dir-contents -recursive is-empty'],
-         syms=['name no-such-name', 'type symlink']),
+         syms=['name no-such-name', 'type symlink', 'name other-73', 'name g.txt', 'name other-75']),
     dict(name='files-matcher', mod='exactly_lib.impls.types.files_matcher.parse_files_matcher', vt='FILES_MATCHER',
          matcher=True, leaves=['is-empty', 'num-files == 1', 'num-files > 1', 'constant true', 'constant false',
                                '-selection name f.txt num-files == 1', '-selection type dir is-empty',
                                '-with-pruned name sub num-files > 1', 'every file : type file', 'any file : name g.txt'],
-         syms=['num-files == 71', 'num-files <= 72']),
+         syms=['num-files == 71', 'num-files <= 72', 'num-files == 73', 'num-files <= 74', 'num-files >= 75']),
     dict(name='text-transformer', mod='exactly_lib.impls.types.string_transformer.parse_string_transformer',
          vt='STRING_TRANSFORMER', matcher=False,
          leaves=['identity', 'char-case -to-upper', 'char-case -to-lower', 'replace a b', 'replace b c', 'replace c a',
                  'filter line-num == 1', "filter contents matches ^a$", 'replace -at line-num == 1 a b'],
          struct_only=[6, 7, 8],   # not character maps: used for the structure only, never evaluated
-         syms=['replace A c', 'replace B a']),
+         syms=['replace A c', 'replace B a', 'replace C b', 'replace b A', 'replace a C']),
 ]
-SYM_NAMES = ['SYM_A', 'SYM_B']
+SYM_NAMES = ['SYM_A', 'SYM_B']   # the symbols every host defines, referenced by their plain names
+_HOST_SYMBOLS = {}
+
+
+def host_symbols(host):
+    """[(source text of the reference, symbol name, source of the definition)] = the words 200, 201, ...:
+    two symbols referenced by plain name, one referenced as @[NAME]@, and symbols whose NAMES are names of primitives
+    of the same host type (taken from the live grammar; up to two, argument-less primitives first), which can only be
+    referenced as @[NAME]@ (the plain name is the primitive) and are defined with a value that differs from the
+    primitive's"""
+    if host['name'] not in _HOST_SYMBOLS:
+        import importlib
+        from exactly_lib.symbol import symbol_syntax
+        g = importlib.import_module(host['mod']).GRAMMAR
+        homonyms = sorted((n for n in g.primitives if symbol_syntax.is_symbol_name(n)),
+                          key=lambda n: (n not in ('identity', 'strip', 'constant'), n))[:2]
+        if not homonyms:
+            raise RuntimeError('no primitive of %s has a name that is a symbol name' % host['name'])
+        syms = [('SYM_A', 'SYM_A'), ('SYM_B', 'SYM_B'), ('@[SYM_C]@', 'SYM_C')] + [('@[%s]@' % n, n) for n in homonyms]
+        for text, name in syms:
+            assert symbol_syntax.parse_symbol_reference__from_str(text) == (name if text != name else None), text
+        _HOST_SYMBOLS[host['name']] = [(t, n, body) for (t, n), body in zip(syms, host['syms'])]
+    return _HOST_SYMBOLS[host['name']]
 ALPHABET = 'abcABC \n'
 
 # contexts that take a SIMPLE expression of another type: (outer host, source before, inner host, path of child indices from
@@ -122,7 +144,7 @@ def gen_expr(rng, host, depth, width, syms=True):
     r = rng.below(10)
     if depth <= 0 or r < 3:
         if syms and rng.chance(0.12):
-            return ('L', 200 + rng.below(len(SYM_NAMES)))
+            return ('L', 200 + rng.below(len(host_symbols(host))))
         return ('L', 100 + rng.below(len(host['leaves'])))
     if host['matcher'] and r < 5:
         return ('P', W_NOT, gen_expr(rng, host, depth - 1, width, syms))
@@ -243,7 +265,7 @@ def word_source(host, w):
     if 100 <= w < 200:
         return host['leaves'][w - 100]
     if 200 <= w < 300:
-        return SYM_NAMES[w - 200]
+        return host_symbols(host)[w - 200][0]
     return JUNK[w] if w in JUNK else WORD_LIKE_OPS[w]
 
 
@@ -376,13 +398,21 @@ class HostImpl:
             assert not symbol_syntax.is_symbol_name(s) and s not in g.primitives, s
             assert symbol_syntax.parse_symbol_reference__from_str(s) is None, s
         assert not g.custom_reserved_words, 'reserved words appeared: extend the generator'
+        self.symbols = SymbolTable({})
         self.symbols = SymbolTable({
             nm: container_of_builtin(getattr(ValueType, host['vt']), self.parse_alone(body))
-            for nm, body in zip(SYM_NAMES, host['syms'])})
+            for _, nm, body in host_symbols(host)})
         self.sig2leaf = {}
         self.leaf_prim = {}
-        for i, s in list(enumerate(host['leaves'], 100)) + list(enumerate(SYM_NAMES, 200)):
-            p = self.primitive(self.parse_alone(s))
+        self.unparseable = set()
+        for i, s in list(enumerate(host['leaves'], 100)) + list(enumerate([x[0] for x in host_symbols(host)], 200)):
+            try:
+                p = self.primitive(self.parse_alone(s))
+            except Exception:
+                # the operand cannot even be parsed alone.  It stays in the repertoire: the cases that contain it are then
+                # syntax errors where the model reads a leaf - failing inputs, not a harness error
+                self.unparseable.add(i)
+                continue
             sig = node_sig(p.structure().render())
             assert sig not in self.sig2leaf, 'leaves not distinguishable: %s' % sig
             assert p.structure().render().header not in OP_WORD, sig
@@ -393,7 +423,7 @@ class HostImpl:
         self.tsig2leaf = {}
         if host['matcher']:
             for mi in range(len(self.models)):
-                self.leaf_tab[mi] = {}
+                self.leaf_tab[mi] = {i: False for i in self.unparseable}
                 self.tsig2leaf[mi] = {}
                 for i, p in self.leaf_prim.items():
                     try:
@@ -410,7 +440,7 @@ class HostImpl:
                     assert r.trace.render().header not in OP_WORD, sig
                     self.tsig2leaf[mi][sig] = i
         else:
-            self.leaf_tab = {}
+            self.leaf_tab = {i: (False, []) for i in self.unparseable}
             for i, p in self.leaf_prim.items():
                 if i - 100 in host.get('struct_only', ()):
                     continue
@@ -934,7 +964,7 @@ class E2e:
         host = HOSTS[hi]
         sym_type = [x[4] for x in E2E if x[0] == hi][0]
         lines = ['[setup]', 'file f.txt = <<EOF_F', E2E_FILE_TEXT.rstrip('\n') if hi == 5 else 'a', 'EOF_F', 'dir d1', 'file d1/g.txt = "a"']
-        for nm, body in zip(SYM_NAMES, host['syms']):
+        for _, nm, body in host_symbols(host):
             lines.append('def %s %s = %s' % (sym_type, nm, body))
         lines += ['[act]', '$ exit 3', '[assert]', instruction_text]
         self.n += 1
@@ -953,7 +983,7 @@ class E2e:
         hi, simple, pre, post, _, _ = entry
         host = HOSTS[hi]
         tab = {}
-        for i, s in list(enumerate(host['leaves'], 100)) + list(enumerate(SYM_NAMES, 200)):
+        for i, s in list(enumerate(host['leaves'], 100)) + list(enumerate([x[0] for x in host_symbols(host)], 200)):
             v = self.run(hi, pre + s + (post % E2E_FILE_TEXT if '%s' in post else post))
             if v in ('VPass', 'VFail'):
                 tab[i] = (v == 'VPass')
@@ -1040,7 +1070,7 @@ def trailing_damage(rng, host, restricted):
     leaf = ('w', False, 100 + rng.below(len(host['leaves'])))
     options = [[('w', False, W_RP)], [('w', False, rng.choice([300, 301]))]]
     if not restricted:
-        options += [[leaf], [('w', False, W_LP), leaf, ('w', False, W_RP)], [('w', False, 200 + rng.below(len(SYM_NAMES)))],
+        options += [[leaf], [('w', False, W_LP), leaf, ('w', False, W_RP)], [('w', False, 200 + rng.below(len(host_symbols(host))))],
                     [leaf, ('w', False, rng.choice(levels_of(host))), ('w', False, 100 + rng.below(len(host['leaves'])))],
                     [('w', False, W_RP), ('w', False, rng.choice(levels_of(host))), leaf]]
         if host['matcher']:
